@@ -196,6 +196,15 @@ def _parse_vevent(
         wall = end_dt.replace(tzinfo=None) - start_dt.replace(tzinfo=None)
         duration_seconds = wall.days * 86400 + wall.seconds
 
+    if duration_prop and not dtend_prop and isinstance(start_dt, datetime):
+        # A single event ends DURATION after DTSTART as RFC 5545 (3.3.6) counts it:
+        # days and weeks are nominal (the same wall-clock time on a later day),
+        # hours, minutes and seconds are exact elapsed time
+        dur = duration_prop.dt
+        days = timedelta(days=dur.days)
+        if dur >= timedelta(0):
+            end_ts = _dt_to_timestamp(start_dt + days) + int((dur - days).total_seconds())
+
     # Extract metadata dict
     metadata = {
         "summary": summary,
